@@ -284,7 +284,7 @@ def listen_means_listening_rule(run):
     ok = False
     why = 'no assignment of a non-negative default to `%s`' % qn
     for s_ in norm:
-        g = q.guards_at(ls, s_)
+        g = [(a_, p_) for a_, p_ in q.guards_at(ls, s_) if any(x['k'] == 'ref' and x.get('did') == ls.params[0].get('did') and x.get('dk') == 'param' for x in walk(a_))]      # the tests of the backlog itself
         vals = {v: all((q.const_eval(ls, a_, lambda t, v=v: v if t == qn else None) is True) == p_ for a_, p_ in g) for v in (-1000, -2, -1, 0, 1, 20)}
         if g and vals[-1000] and vals[-2] and vals[-1] and not vals[0] and not vals[1] and not vals[20]:
             stores = [a.site for a in q.field_accesses(ls, {A + '::m_queue_size_limit'}) if a.kind == 'assign']
